@@ -249,8 +249,8 @@ pub fn assumptions(prop: &str) -> Vec<&'static str> {
         "C02" => v.push("edge-geometry sections are empty, every non-empty section holds at least one byte, stored blocks are padded to a multiple of 128 bytes"),
         "C03" => v.push("patches stay inside the constrained space where the references agree (DESIGN §4 C03): T before the first block command, block commands aim at an existing repository directory, no empty file blocks, no file/directory name clashes; ADIR/DELD directories, the leaf of F-M without trailing slash and an emptied expansion directory are unconstrained"),
         "C04" => v.push("trees hold regular files only, ASCII names, no file/directory name clash between A and B, no empty files in B (as the statement's quantifier says)"),
-        "C17" => v.push("allocation bound per operation: 256 MiB + 64 x bytes of input visible to it; step budget 1,000,000 + 16 x input bytes file-system calls; watchdog 20 s per scenario (replayed alone before it counts)"),
-        "C18" => v.push("allocation bound per operation: 256 MiB + 64 x bytes of input visible to it; leak = equal positive growth of live heap bytes across repetitions 2,3,4 of the same failed call"),
+        "C17" => v.push("allocation bound per operation: 8 MiB + 1100 x bytes of input visible to it (deflate expands by at most 1032:1); step budget 1,000,000 + 16 x input bytes file-system calls; watchdog 20 s per scenario (replayed alone before it counts)"),
+        "C18" => v.push("allocation bound per operation: 8 MiB + 1100 x bytes of input visible to it (deflate expands by at most 1032:1); leak = equal positive growth of live heap bytes across repetitions 2,3,4 of the same failed call"),
         _ => {}
     }
     v
